@@ -383,6 +383,12 @@ def d_len1(F, s):
     vid, vname = v["id"], v["name"]
     ctx = q.context(s.path, n)
     for e in ctx:
+        # `match v.len() { 1 => v.into_iter().next().expect(..), .. }`
+        if e[0] == "arm" and call_is(peel(e[2]), "::len") and q.var_id(peel(e[2])["args"][0]) == vid:
+            pt = strip_ref(e[1])
+            if pt.get("k") == "Const" and re.fullmatch(r"[1-9]\d*(_usize)?", pt["v"]):
+                return ("D-LEN1", "first element taken in the arm for length %s" % pt["v"])
+    for e in ctx:
         if e[0] != "if" or not e[2]:
             continue
         for f in q.conj(e[1]):
@@ -453,8 +459,10 @@ def d_external(F, s):
         if s.fn.endswith(suf) and pred(s):
             # the yaml/json arm must really be the tail of the is_u64/is_i64/is_f64 chain
             if s.kind == "panic":
-                ff = [show(e[1]) for e in q.context(s.path, s.node) if e[0] == "if" and not e[2]]
-                if sorted(ff) != ["Number::is_f64(n)", "Number::is_i64(n)", "Number::is_u64(n)"]:
+                ff = [peel(e[1]) for e in q.context(s.path, s.node) if e[0] == "if" and not e[2]]
+                kinds = sorted((x.get("fn") or "").split("::")[-1] for x in ff if x.get("k") == "Call")
+                ids = {q.var_id(x["args"][0]) for x in ff if x.get("k") == "Call" and x.get("args")}
+                if kinds != ["is_f64", "is_i64", "is_u64"] or len(ids) != 1 or None in ids:
                     return None
             return ("D-EXTERNAL", why)
     return None
@@ -495,8 +503,13 @@ def d_fromu32(F, s):
     arg = peel(peel(peel(n["args"][0])["args"][0]))
     oki = arg.get("k") == "Cast" and show(arg["arg"]) == "i"
     body = _enclosing_fn_body(F, s)
-    lets = [show(st["init"]) for x in walk(body) if x.get("k") == "Block" for st in x["stmts"] if st["k"] == "Let" and st["pat"].get("name") == "columns" and st.get("init")]
-    okcols = lets == ["Iterator::collect(IntoIterator::into_iter(fields))", "Iterator::collect(Iterator::map(IntoIterator::into_iter(columns), |closure {closure#1}|))"]
+    lets = [st["init"] for x in walk(body) if x.get("k") == "Block" for st in x["stmts"] if st["k"] == "Let" and st["pat"].get("name") == "columns" and st.get("init")]
+    # columns = fields.into_iter().collect(); columns = columns.into_iter().map(|(c, _)| c).collect()  (one element per field, both times)
+    okcols = len(lets) == 2 and show(lets[0]) == "Iterator::collect(IntoIterator::into_iter(fields))"
+    if okcols:
+        second = peel(lets[1])
+        loops = [x for x in walk(second) if x.get("k") == "For"]
+        okcols = bool(second.get("collected")) and len(loops) == 1 and show(loops[0]["iter"]) == "IntoIterator::into_iter(columns)"
     if guard is not None and okfor and oki and okcols:
         return ("D-FROMU32", "index < columns.len() == fields.len() < 0xD800 (guard `%s`): every such value is a valid char" % show(guard))
     return None
